@@ -1,23 +1,26 @@
 #!/usr/bin/env python3
-"""tools/mut.py <file under /repo> <old> <new> <tier> <id>...  : in-place textual mutation of /repo, run checks, always revert."""
+"""tools/mut.py <file under the repo> <old> <new> <tier> <id>...  : textual mutation in a scratch worktree of /repo HEAD,
+runs the repository suite and the checks there (VERIF_REPO_SRC), removes the worktree."""
+import os
 import subprocess
 import sys
 
 f, old, new, tier = sys.argv[1:5]
 ids = sys.argv[5:]
-if subprocess.run(["git", "-C", "/repo", "diff", "--quiet"]).returncode != 0:
-    sys.exit("/repo has uncommitted changes")
-p = "/repo/" + f
-s = open(p).read()
-if s.count(old) < 1:
-    sys.exit("pattern not found")
-open(p, "w").write(s.replace(old, new, 1))
+W = "/tmp/mutpy_%d" % os.getpid()
+subprocess.run(["git", "-C", "/repo", "worktree", "add", "-q", W, "HEAD"], check=True)
 try:
-    t = subprocess.run("cd /repo && /venv/bin/python -m pytest -q -x -p no:cacheprovider --deselect tests/io/output_stream/test_stream_output_stream.py::test_supports_utf8_with_encoding 2>&1 | tail -1", shell=True, capture_output=True, text=True)
+    p = os.path.join(W, f)
+    s = open(p).read()
+    if s.count(old) < 1:
+        sys.exit("pattern not found")
+    open(p, "w").write(s.replace(old, new, 1))
+    t = subprocess.run("cd %s && PYTHONPATH=%s/src /venv/bin/python -m pytest -q -x -p no:cacheprovider --deselect tests/io/output_stream/test_stream_output_stream.py::test_supports_utf8_with_encoding 2>&1 | tail -1" % (W, W), shell=True, capture_output=True, text=True)
     print("suite:", t.stdout.strip())
+    env = dict(os.environ, VERIF_REPO_SRC=W + "/src")
     for i in ids:
-        r = subprocess.run(["/verif/check", i, "--tier", tier], capture_output=True, text=True, cwd="/verif")
+        r = subprocess.run(["/verif/check", i, "--tier", tier], capture_output=True, text=True, cwd="/verif", env=env)
         print("\n".join(r.stdout.strip().splitlines()[-4:]))
         print("EXIT[%s]=%d" % (i, r.returncode))
 finally:
-    subprocess.run(["git", "-C", "/repo", "checkout", "--", f])
+    subprocess.run(["git", "-C", "/repo", "worktree", "remove", "--force", W])
